@@ -192,6 +192,16 @@ def obligations(tier, rng):
         add('unless-sugar', f, 'out = ' + text(f), 'out = (x) unless[%d,%d] (y)' % (a, b))
     f = ('or', ('always', X), ('until', X, Y))
     add('unless-sugar', f, 'out = ' + text(f), 'out = (x) unless (y)')
+    # ... on traces NOT LONGER than the upper bound (the two halves of the sugar share the left operand)
+    for a, b in [(1, 5), (0, 3), (2, 4)]:
+        f = ('or', ('always_t', X, 0, b), ('until_t', X, Y, a, b))
+        for Ns in (1, 2, 3):
+            out.append(ob('C15', 'variant', 'unless-sugar-short/N=%d/out = (x) unless[%d,%d] (y)  ~  %s' % (Ns, a, b, 'out = ' + text(f)), f=f, canon='out = ' + text(f),
+                          variant='out = (x) unless[%d,%d] (y)' % (a, b), N=Ns, online=False, front='stl'))
+            g = ('geq', X, ('const', 3.0))
+            f2 = ('or', ('always_t', g, 0, b), ('until_t', g, ('geq', Y, ('const', 2.0)), a, b))
+            out.append(ob('C15', 'variant', 'unless-sugar-short/N=%d/out = ((x) >= (3.0)) unless[%d,%d] ((y) >= (2.0))' % (Ns, a, b), f=f2, canon='out = ' + text(f2),
+                          variant='out = ((x) >= (3.0)) unless[%d,%d] ((y) >= (2.0))' % (a, b), N=Ns, online=False, front='stl'))
     # ... and with explicit, mixed and one-sided units (a, b in seconds = samples)
     for a, b in [(1, 3), (0, 2)]:
         f = ('or', ('always_t', X, 0, b), ('until_t', X, Y, a, b))
